@@ -29,6 +29,7 @@ func init() {
 	gens["Src_group.v"] = genGoLoopGroup
 	gens["Src_reverse.v"] = genGoLoopReverse
 	gens["Src_slashmw.v"] = genGoLoopSlash
+	gens["Src_ipextract.v"] = genGoLoopIP
 }
 
 // innerHandler finds the innermost function literal of shape func(c echo.Context) error inside fd.
@@ -195,6 +196,9 @@ func (g *goliteCfg) expr(e ast.Expr) (string, error) {
 			}
 		}
 	case *ast.IndexExpr:
+		if g.cells[lit(v)] {
+			return "EField " + g.str(lit(v)), nil // a map lookup read as a cell (`req.Header[HeaderXForwardedFor]`)
+		}
 		if g.loop {
 			x, err := g.expr(v.X)
 			if err != nil {
@@ -313,6 +317,15 @@ func (g *goliteCfg) assignTo(lhs ast.Expr, rhs string) (string, error) {
 		return fmt.Sprintf("SFSet %s (%s)", g.str(lit(v)), rhs), nil
 	case *ast.StarExpr:
 		return g.assignTo(v.X, rhs)
+	case *ast.IndexExpr:
+		// xs[i] = e on a local slice: slices are values, the local gets the updated slice
+		if id, ok := v.X.(*ast.Ident); ok && g.loop && g.locals[id.Name] {
+			ix, err := g.expr(v.Index)
+			if err != nil {
+				return "", err
+			}
+			return fmt.Sprintf("SSet %s (EPred \"set_index\" [EVar %s; %s; %s])", g.str(id.Name), g.str(id.Name), ix, rhs), nil
+		}
 	}
 	return "", fmt.Errorf("assignment target %s is not understood", lit(lhs))
 }
@@ -734,10 +747,20 @@ func (g *goliteCfg) stmt(s ast.Stmt) ([]string, error) {
 				break
 			}
 			be, ok := bound.(*ast.BinaryExpr)
-			if !ok || be.Op != token.LSS {
-				return nil, fmt.Errorf("for loop: the condition %s does not start with `i < E`", lit(v.Cond))
+			if !ok || (be.Op != token.LSS && !(be.Op == token.GEQ && lit(be.Y) == "0")) {
+				return nil, fmt.Errorf("for loop: the condition %s starts neither with `i < E` nor with `i >= 0`", lit(v.Cond))
 			}
-			hi, err := g.expr(be.Y)
+			var hi string
+			var err error
+			if be.Op == token.LSS {
+				hi, err = g.expr(be.Y)
+			} else {
+				// a counter running DOWN to 0: at most (its value on entry) + 1 iterations; the fuel is that + 1 as for `i < E`
+				hi, err = g.expr(be.X)
+				if err == nil {
+					hi = fmt.Sprintf("EAdd (%s) (%s)", hi, g.z("1"))
+				}
+			}
 			if err != nil {
 				return nil, err
 			}
@@ -1197,6 +1220,40 @@ func genGoLoopSlash(repo string) (string, error) {
 			pure:   map[string]bool{"len": true, "strings.HasSuffix": true, "sanitizeURI": true},
 			strs:   map[string]bool{"path": true, "uri": true, "qs": true},
 			extern: map[string]bool{"config.Skipper": true}})
+		if err != nil {
+			return "", err
+		}
+		out += s
+	}
+	return out, nil
+}
+
+func genGoLoopIP(repo string) (string, error) {
+	f, err := parseFile(repo, "ip.go")
+	if err != nil {
+		return "", err
+	}
+	out := goloopHeader + "(* ip.go: the extractor closures returned by ExtractIPFromRealIPHeader and ExtractIPFromXFFHeader.  The header lookups are cells;\n   extractIP, net.ParseIP, checker.trust, ip.String and the strings functions are pure; slices are values (ips[i] = e updates the local). *)\n"
+	for _, fn := range [][2]string{{"ExtractIPFromRealIPHeader", "realip_extractor"}, {"ExtractIPFromXFFHeader", "xff_extractor"}} {
+		fd := findFunc(f, "", fn[0])
+		if fd == nil {
+			return "", fmt.Errorf("%s not found", fn[0])
+		}
+		var fl *ast.FuncLit
+		ast.Inspect(fd.Body, func(n ast.Node) bool {
+			if x, ok := n.(*ast.FuncLit); ok && fl == nil {
+				fl = x
+			}
+			return true
+		})
+		if fl == nil {
+			return "", fmt.Errorf("%s: no extractor closure found", fn[0])
+		}
+		s, err := goliteFunc(&ast.FuncDecl{Name: fd.Name, Type: fl.Type, Body: fl.Body}, fn[1], goliteCfg{loop: true,
+			ignore: map[string]bool{}, extern: map[string]bool{},
+			cells:  map[string]bool{"req.Header[HeaderXForwardedFor]": true, "req.Header.Get(HeaderXRealIP)": true},
+			pure: map[string]bool{"len": true, "extractIP": true, "net.ParseIP": true, "checker.trust": true, ".String": true, "append": true,
+				"strings.Split": true, "strings.Join": true, "strings.TrimSpace": true, "strings.TrimPrefix": true, "strings.TrimSuffix": true}})
 		if err != nil {
 			return "", err
 		}
